@@ -37,7 +37,9 @@ SPEC = {
     "rule": "sequence = reset (in-process bootstrapped PD server put back to its default configuration, cluster version "
             "4.0.0 or 5.0.0) + 4-40 calls out of Server.SetScheduleConfig / SetReplicationConfig / SetPDServerConfig / "
             "SetLabelProperty / DeleteLabelProperty / SetLabelPropertyConfig / SetClusterVersion / "
-            "SetReplicationModeConfig; each call mutates 1-4 items of the currently served section with values from the "
+            "SetReplicationModeConfig, plus `foreign <section> <value>` (another member's write of one section through "
+            "its own options/Storage objects on the same kv) and `reload` (Reload on the serving options object, i.e. "
+            "re-election); each call mutates 1-4 items of the currently served section with values from the "
             "domain edges (ratios 0, 10^-6, 0.699999..0.800001, 0.999999, 1, 1.000001, 2, negative, NaN, +-Inf; tolerant "
             "ratio negative/NaN/Inf; flow digit -3..127; isolation level in / not in the location labels; label keys "
             "valid and invalid; registered, unregistered and misspelled scheduler types; deprecated flags; dashboard "
